@@ -217,6 +217,20 @@ def lean_stage(prop: str, tier: str) -> dict:
                                         'log_tail': out[-4000:]})
         # audit
         audit_file = os.path.join(LEAN, 'PedVerif', 'Audit', f'{prop}.lean')
+        # further proof modules the audit file lists theorems of (e.g. Props/FrozenIR.lean, which restates the theorems of C10 / C11 about the
+        # statement-by-statement translation and therefore imports Props/C10, Props/C11 - not the other way round): built like Props/<prop>
+        for mod in re.findall(r'^import\s+(PedVerif\.[A-Za-z0-9_.]+)', open(audit_file).read(), flags=re.M):
+            if mod == f'PedVerif.Props.{prop}' or not build_ok:
+                continue
+            if tier == 'thorough':
+                for f in glob.glob(os.path.join(LEAN, '.lake', 'build', 'lib', 'lean', *mod.split('.')) + '.*'):
+                    os.remove(f)
+            rc, out = sh(['lake', 'build', mod], cwd=LEAN)
+            cmds.append(f'lake build {mod}')
+            if rc != 0:
+                build_ok = False
+                errs = [l for l in out.splitlines() if 'error' in l.lower()]
+                rep['proof_broken'].append({'what': f'lake build {mod} failed', 'first_errors': errs[:8], 'log_tail': out[-4000:]})
         names = re.findall(r'^#print axioms\s+(\S+)', open(audit_file).read(), flags=re.M)
         rep['obligations'] = len(names)
         if build_ok:
@@ -247,8 +261,10 @@ def lean_stage(prop: str, tier: str) -> dict:
                     if FORBIDDEN.search(line):
                         rep['proof_broken'].append({'what': f'forbidden token in {os.path.relpath(f, LEAN)}: {line.strip()[:80]}'})
             if tier == 'thorough':
-                rc, out = sh(['lake', 'env', 'leanchecker', f'PedVerif.Props.{prop}'], cwd=LEAN, timeout=3000)
-                cmds.append(f'lake env leanchecker PedVerif.Props.{prop}')
+                extra_mods = [m for m in re.findall(r'^import\s+(PedVerif\.[A-Za-z0-9_.]+)', open(audit_file).read(), flags=re.M)
+                              if m != f'PedVerif.Props.{prop}']
+                rc, out = sh(['lake', 'env', 'leanchecker', f'PedVerif.Props.{prop}'] + extra_mods, cwd=LEAN, timeout=3000)
+                cmds.append(f'lake env leanchecker PedVerif.Props.{prop}' + ''.join(' ' + m for m in extra_mods))
                 rep['leanchecker'] = 'ok' if rc == 0 else out[-1500:]
                 if rc != 0:
                     rep['proof_broken'].append({'what': 'leanchecker rejected the compiled module', 'log_tail': out[-1500:]})
